@@ -271,6 +271,13 @@ class _Stream:
             return r
         return self._s.close(*a, **k)
 
+    def __enter__(self):
+        return self
+
+    def __exit__(self, *exc):
+        self.close()
+        return False
+
     def __getattr__(self, n):
         return getattr(self._s, n)
 
